@@ -216,8 +216,9 @@ def run(ctx):
             t = ts[0]
             adt = ty.split("<")[0]
             even = lambda x: is_call(x, name="into_even_y") and x[2][0] == ("arg", 1) and x[2][1] == NONE
+            # x(P) == x(-P): the tweak may be derived from the key before or after normalisation
             tw = lambda x: is_call(x, name="tweak") and x[1] == TRC + "tweak" and x[2][1] == ("arg", 2) and \
-                strip_newtype_fields(x[2][0]) == ("field", ("arg", 1), adt, "verifying_key")
+                (lambda k: k[0] == "field" and k[3] == "verifying_key" and (k[1] == ("arg", 1) or even(k[1])))(strip_newtype_fields(x[2][0]))
             tG = lambda x: gen_times(x, tw)
             for comp, how in comps.items():
                 val = get_field(t, comp)
